@@ -21,7 +21,7 @@ RULE = (
     "Non-trivial valid case: >= 3 rows and >= 2 distinct formatting features beyond the canonical "
     "spelling. Malformed family: the same texts with 1-3 injected lines (fewer than seven fields or a "
     "non-numeric token in one of the seven fields) or one undecodable byte; non-trivial: a bad line "
-    "with >= 1 valid row before and after it. Sorted family: arbitrary distinct ids, arbitrary row "
+    "with >= 1 valid row before and after it. Sorted family: arbitrary distinct ids, arbitrary row (numbering modes: scattered ids, a gap-free range shuffled, a gap-free range with the root first holding the smallest id, rows parents-first with ids counting down or scattered) "
     "order; non-trivial: >= 4 rows, not already in parent-before-child id order."
 )
 ASSUMPTIONS = [
@@ -296,7 +296,7 @@ def run_sorted(case, ctx):
     by_id = {r["id"]: r for r in rows}
     pos_sorted = all(r["pid"] == -1 or r["pid"] < r["id"] for r in rows)
     ctx.cls("root-first" if doc["root_first"] else "root-not-first",
-            "already-sorted" if pos_sorted else "unsorted")
+            "already-sorted" if pos_sorted else "unsorted", "ids:" + doc.get("id_mode", "sparse"))
     ctx.nontrivial(n >= 4 and not pos_sorted)
     df, _ = read_swc(src, extra_cols=extra_cols, sort_nodes=True, **kw)
     ctx.check(len(df) == n, "sorted/row-count", f"{len(df)} != {n}")
@@ -322,6 +322,99 @@ def run_sorted(case, ctx):
     src2, kw2 = _source(text, case["kind"], case["encoding"], ctx, "h.swc")
     t = Tree.from_swc(src2, extra_cols=extra_cols, sort_nodes=True, **kw2)
     ctx.check(t.pid().tolist() == pids and len(t) == n, "sorted/tree", "Tree.from_swc differs from read_swc")
+
+
+# ----------------------------------------------------------------------------- a directory of files read lazily
+@st.composite
+def population_case(draw, tier):
+    """Two to four valid files in one directory, written in different encodings (pure ASCII, UTF-8 / UTF-16 with
+    non-ASCII comments), read through a lazily loading Population with one set of read options, members requested in
+    any order (with repeats)."""
+    k = draw(st.integers(2, 4))
+    docs = []
+    for i in range(k):
+        enc = draw(st.sampled_from(["ascii", "utf-8", "utf-8", "utf-16"]))
+        doc = draw(gen_swc.swc_document(max_rows=8, family="default", allow_unrequested=False, unicode_ok=enc != "ascii"))
+        docs.append({"doc": doc, "enc": enc})
+    return {"docs": docs, "encoding": draw(st.sampled_from(["detect", "detect", "utf-8"])),
+            "order": draw(st.lists(st.integers(0, k - 1), min_size=k, max_size=2 * k))}
+
+
+def _tree_signature(t):
+    return (len(t), t.pid().tolist(), t.type().tolist(), [t.get_ndata(c).tolist() for c in "xyzr"],
+            [c.rstrip("\r\n") for c in t.comments])
+
+
+def run_population(case, ctx):
+    from swcgeom.core import Population, Tree
+
+    d = os.path.join(ctx.tmpdir, "pop")
+    if os.path.isdir(d):
+        import shutil
+
+        shutil.rmtree(d)
+    os.makedirs(d)
+    texts = []
+    for i, item in enumerate(case["docs"]):
+        text = gen_swc.render(item["doc"])
+        if item["enc"] == "ascii":
+            text = text.encode("ascii", "replace").decode("ascii")
+        texts.append(text)
+        with open(os.path.join(d, f"m{i}.swc"), "wb") as f:
+            f.write(text.encode(item["enc"] if item["enc"] != "ascii" else "ascii"))
+    kw = {"encoding": case["encoding"]}
+    encs = sorted({item["enc"] for item in case["docs"]})
+    ctx.cls("pop-enc:" + case["encoding"], "files:" + "+".join(encs))
+    ctx.nontrivial(len(encs) >= 2 and case["encoding"] == "detect")
+    # what each file gives when read on its own with the same options (a value, or a loud refusal)
+    alone = {}
+    for i in range(len(texts)):
+        path = os.path.join(d, f"m{i}.swc")
+        try:
+            alone[path] = ("ok", _tree_signature(Tree.from_swc(path, **kw)))
+        except Exception as e:  # noqa - e.g. a UTF-16 file read as UTF-8: loud, and the same through the population
+            alone[path] = ("raises", type(e).__name__)
+    try:
+        pop = Population.from_swc(d, **kw)
+    except Exception as e:  # noqa
+        # building a population may probe its first file: a file that is refused on its own may be refused here
+        first = os.path.abspath(ctx.lib("Population.find_swcs", Population.find_swcs, d)[0])
+        ctx.check(alone.get(first, ("ok",))[0] == "raises", "population/construction-refused-although-the-first-file-reads-on-its-own",
+                  lambda: f"{type(e).__name__}: {e}")
+        ctx.cls("construction-refused-with-the-first-file")
+        return
+    ctx.check(len(pop) == len(texts), "population/len", f"{len(pop)} vs {len(texts)}")
+    for i in case["order"]:
+        try:
+            t = pop[i]
+            got = ("ok", _tree_signature(t))
+            path = os.path.abspath(t.source)
+        except Exception as e:  # noqa
+            got, path = ("raises", type(e).__name__), None
+        if path is None:
+            # which file member i is follows the population's own listing
+            path = os.path.abspath(pop.trees.swcs[i]) if hasattr(pop.trees, "swcs") else None
+            if path is None:
+                ctx.ambiguous("refused-member-cannot-be-identified")
+                continue
+        want = alone.get(path)
+        ctx.check(want is not None, "population/member-source-is-a-file-of-the-directory", f"{path}")
+        if want[0] == "ok":
+            ctx.check(got == want, "population/member-read-lazily-equals-the-file-read-on-its-own",
+                      lambda: f"member {i} ({os.path.basename(path)}, written as {case['docs'][int(os.path.basename(path)[1:-4])]['enc']}, "
+                              f"read with encoding={case['encoding']!r}, request order {case['order']}): {str(got)[:300]} vs {str(want)[:300]}")
+        else:
+            ctx.check(got[0] == "raises", "population/member-refused-on-its-own-is-refused-lazily",
+                      lambda: f"member {i}: read on its own raises {want[1]}, through the population: {str(got)[:200]}")
+    # explicit UTF-8 on ASCII / UTF-8 files: the lazily read member holds exactly the rows of its document
+    if case["encoding"] == "utf-8":
+        for i, item in enumerate(case["docs"]):
+            if item["enc"] == "utf-16":
+                continue
+            path = os.path.join(d, f"m{i}.swc")
+            st_, sig = alone[os.path.abspath(path)] if os.path.abspath(path) in alone else alone[path]
+            ctx.check(st_ == "ok" and sig[0] == len(item["doc"]["rows"]), "population/one-node-per-data-row",
+                      lambda: f"file {i}: {st_} {sig if st_ != 'ok' else sig[0]} vs {len(item['doc']['rows'])} rows")
 
 
 # ----------------------------------------------------------------------------- coverage-guided campaigns (thorough tier)
@@ -386,7 +479,10 @@ SUBCHECKS = [
         required={"inj:short-line": 20, "inj:bad-token": 20, "inj:bad-byte": 10,
                   "api:Population": 5, "api:Tree.from_swc": 10, "inj:hash-sign-inside-a-row": 10}),
     Sub("sorted", sorted_case, run_sorted, quick=600, thorough=4000, shards_quick=2,
-        required={"unsorted": 20, "root-not-first": 20}),
+        required={"unsorted": 20, "root-not-first": 20, "ids:sparse": 60, "ids:dense-shuffled": 40, "ids:dense-root-min-first": 40,
+                  "ids:parents-first-ids-down": 40, "ids:parents-first-ids-scattered": 40}),
+    Sub("population", population_case, run_population, quick=300, thorough=2500, shards_quick=2,
+        required={"pop-enc:detect": 60, "files:ascii+utf-8": 20}),
     # Atheris / libFuzzer, thorough tier (the line matcher is a C regular expression: little coverage gradient inside it,
     # the structured targets mainly add volume, the raw target explores line / encoding / option handling)
     Fuzz("fuzz_valid", run_valid, SWC_MODULES, mode="structured", strategy=valid_case, runs_thorough=2500, shards_thorough=3,
